@@ -258,6 +258,10 @@ def paths_to(stmts, target_pred, max_paths=256):
             inner = paths_to(s.body, target_pred, max_paths)
             for st_, cs in inner:
                 found.append((st_, conds + cs))
+            if s.orelse:
+                # the else clause runs when the loop ended without `break`: an opaque condition of its own
+                mark = ast.Name(id='<loop at line %s ended without break>' % getattr(s, 'lineno', '?'), ctx=ast.Load())
+                return run(s.orelse, _forget(env, s), conds + [(mark, True)]) + ([(_forget(env, s), conds)] if any(isinstance(x, ast.Break) for x in ast.walk(s)) else [])
             return [(_forget(env, s), conds)]
         return [(_forget(env, s), conds)]
 
